@@ -459,7 +459,7 @@ def mol_cases(ck, tag, g, m, rng):
                 exp = m.linear_hash_smiles(lo, hi, nbp)
                 add(f'lhsm_ok fa{g} fb{g} {d} {a} {pl(order)} {zraw(nbp)} {lst([tup(zx(k), lst([cstr(x) for x in v])) for k, v in exp.items()])}',
                     'linear_hash_smiles (over the observed set order and spellings)', (lo, hi, nbp), lanes)
-                if small:
+                if small and lanes <= 250:
                     # the same with the spelling computed by the model (Model.LinearSpell): functions of the molecule and of the set order only
                     add(f'lhsm_model_ok {a} {pl(order)} {zraw(nbp)} {lst([tup(zx(k), lst([cstr(x) for x in v])) for k, v in exp.items()])}',
                         'linear_hash_smiles (model spelling)', (lo, hi, nbp), lanes + 4 * n)
